@@ -399,7 +399,7 @@ def BASE(value, base, places=DEFAULT):
     while value:
         digits.append(int(value % base))
         value //= base
-    result = ''.join(str(n) for n in digits[::-1])
+    result = ''.join('0123456789ABCDEFGHIJKLMNOPQRSTUVWXYZ'[n] for n in digits[::-1])
     if places is not DEFAULT:
         if len(result) > places:
             return error.NUM
